@@ -299,6 +299,8 @@ class Opaque:
 def parse_type(s):
     """'seq[tuple[int,int]]' -> ('seq', ('tuple', ('int','int')))"""
     s = s.strip()
+    if s.startswith("const:"):
+        return ("str", s[6:])
     if "[" not in s:
         return s
     head, rest = s.split("[", 1)
